@@ -413,6 +413,8 @@ func RunRebuild(s *Scen, r *vk.Rand, a, b int, bin, base string, cycles int) {
 	}
 	size := int64(r.Range(1, 4)) * 4 << 20
 	s.Cfg = map[string]interface{}{"rf": rf, "size": size, "cycles": cycles}
+	AgentPortWidth = []int{20, 6, 9}[(s.Case/100+s.Case)%3]
+	s.Cfg["agent_port_range_width"] = AgentPortWidth
 	cl, err := NewCluster("vol", rf, size, bin, base, a, b, r, s.Res)
 	if err != nil {
 		s.inconclusive("cluster: %v", err)
